@@ -614,6 +614,11 @@ class SimulationParameters(JsonSerializable):
         if fixed_params_dict is None:  # pragma: no cover
             fixed_params_dict = {}
 
+        # Without any parameter marked to be unpacked there is a single
+        # variation (with index 0) and nothing to index.
+        if not self._unpacked_parameters_set:
+            return np.array([0])
+
         # Get the only parameter that was not fixed
         varying_param = list(self._unpacked_parameters_set -
                              set(fixed_params_dict.keys()))
